@@ -54,7 +54,7 @@ CHUNKED_FUNCS = ["nansum", "prod", "nanmean", "max", "nanmax", "nanmin", "count"
 
 
 def bounds(tier, seed):
-    return dict(n=3 if tier == "quick" else 4, chunked_n=3 if tier == "quick" else 4,
+    return dict(n=3 if tier == "quick" else 4, chunked_n=3,
                 expected=list(EXPECTED), fills=list(FILLS), min_counts=[str(m) for m in MIN_COUNTS])
 
 
@@ -63,7 +63,8 @@ def shards(tier, seed):
     out = []
     for func, dtype in FUNCS:
         for engine in ("numpy", "flox", "numbagg"):
-            out.append(dict(kind="eager", func=func, dtype=dtype, engine=engine, n=n, tier=tier,
+            # thorough: n=4 with the full option product for the numpy engine, n=3 (full product) for the others
+            out.append(dict(kind="eager", func=func, dtype=dtype, engine=engine, n=n if (tier == "quick" or engine == "numpy") else 3, tier=tier,
                             reduced=(tier == "quick" and engine != "numpy")))
         if func in CHUNKED_FUNCS and dtype != "int64":
             if tier == "quick" and func in ("prod", "nanvar", "nanmin"):
@@ -71,7 +72,7 @@ def shards(tier, seed):
             nparts = 6 if tier == "quick" else 24
             for method in (None, "map-reduce", "cohorts"):
                 for part in range(nparts):
-                    out.append(dict(kind="chunked", func=func, dtype=dtype, engine="numpy", n=n, method=method,
+                    out.append(dict(kind="chunked", func=func, dtype=dtype, engine="numpy", n=3, method=method,
                                     part=part, nparts=nparts, tier=tier))
     out.sort(key=lambda s: (0 if s["engine"] == "numbagg" else 1, 0 if s["kind"] == "chunked" else 1))
     return out
@@ -222,8 +223,8 @@ def run_shard(shard):
             pairs = [p for i, p in enumerate(pairs) if i % shard["nparts"] == shard["part"]]
             quick = shard.get("tier") == "quick"
             exnames = ("superset", "permuted-absent", "disjoint") if quick else tuple(EXPECTED)
-            fillnames = [f for f in fills if f in ("zero", "neg", "false", "true")] if quick else list(fills)
-            mcs = (None, 0, 2) if quick else MIN_COUNTS
+            fillnames = [f for f in fills if f in ("zero", "neg", "false", "true")]
+            mcs = (None, 0, 2)
             zero, neg = ("false", "true") if func in ("any", "all") else ("zero", "neg")
             quick_cfgs = [("superset", True, zero, None), ("superset", True, neg, 2), ("superset", True, zero, 0),
                           ("permuted-absent", True, zero, None), ("permuted-absent", False, neg, None), ("permuted-absent", False, zero, 2),
